@@ -58,6 +58,8 @@ def evaltree(m, t):
     if hasattr(t, "val") and hasattr(t, "weak"):
         return evaltree(m, t.val)
     if z3.is_expr(t):
+        if _has_uf(t):
+            return "?"           # value abstracted by an uninterpreted function: not comparable with a concrete run
         v = m.eval(t, model_completion=True)
         v = z3.simplify(v)
         if z3.is_int_value(v) or z3.is_bv_value(v):
@@ -72,6 +74,28 @@ def evaltree(m, t):
     if isinstance(t, (int, str, bool, float)) or t is None:
         return t
     return str(t)
+
+
+_UF_MEMO = {}
+
+
+def _has_uf(t):
+    k = t.get_id()
+    r = _UF_MEMO.get(k)
+    if r is not None and r[0].eq(t):
+        return r[1]
+    v = False
+    if z3.is_app(t):
+        d = t.decl()
+        if d.kind() == z3.Z3_OP_UNINTERPRETED and d.arity() > 0 and not d.name().startswith(("bits", "unbits")):
+            v = True
+        else:
+            for c in t.children():
+                if _has_uf(c):
+                    v = True
+                    break
+    _UF_MEMO[k] = (t, v)
+    return v
 
 
 class FuncRecorder:
